@@ -954,6 +954,44 @@ def float_physical_sens(ctx, case, req, ans, entries, d, raised=None):
         if how != "bit-exact":
             worst = how
     ctx.hit("phys:sens-" + worst)
+    return ans2
+
+
+def sens_generation(ctx, case, sens, ans, ans2, dims_hex):
+    """the generators of Sensitivity read directly: `_lists` (unit vectors), `_physical_values`, `_labels` of every
+    job in job order against the model (unit centres, value_for of them, label = name_value pairs in id order with
+    Python's repr of the model's doubles)"""
+    try:
+        lists = [[f2h(float(v)) for v in row] for row in sens._lists]
+        values = [[f2h(float(v)) for v in row] for row in sens._physical_values]
+        labels = list(sens._labels)
+    except AttributeError:
+        ctx.hit("sens:generators-not-readable")
+        return
+    except Exception as e:  # noqa
+        ctx.disagree("C16.sens.generators", case, f"raised {type(e).__name__}", "model has values")
+        return
+    m_lists = [[c[0] for c in row] for row in ans["cells"]]
+    m_values = [[c[0] for c in row] for row in ans2["fphys_cells"]]
+    m_labels = ["_".join(f"{name}_{h2f(v)!r}" for name, v in row) for row in ans2["labels"]]
+    tols = [fphys_tol(h2f(lo), h2f(hi)) for lo, hi in dims_hex]
+    if lists != m_lists:
+        ctx.disagree("C16.sens.unit_lists", case, _short(lists), _short(m_lists))
+    elif values == m_values and labels == m_labels:
+        ctx.hit("sens:lists-values-labels-bit-exact")
+    elif _same_or_close(values, m_values, tols) is None:
+        ctx.disagree("C16.sens.physical_values", case, _short(values), _short(m_values))
+    elif values == m_values:
+        ctx.disagree("C16.sens.labels", case, _short(labels), _short(m_labels))
+    else:
+        # a float-equivalent rewrite of value_for: the labels are compared as names + values within that rounding
+        ok = len(labels) == len(m_labels)
+        for lab, row, vrow in zip(labels, ans2["labels"], values):
+            ok = ok and lab == "_".join(f"{name}_{h2f(v)!r}" for (name, _), v in zip(row, vrow))
+        if ok:
+            ctx.hit("sens:lists-values-labels-within-rounding")
+        else:
+            ctx.disagree("C16.sens.labels", case, _short(labels), _short(m_labels))
 
 
 # ---------------------------------------------------------------------------------------------
@@ -1095,7 +1133,9 @@ def run_sens(ctx, cfg, case, label="gen"):
                 break
         if bad:
             ctx.disagree("C16.sens.cells", case, bad[:5], bad[5])
-        float_physical_sens(ctx, case, req, ans, entries, d)
+        ans2 = float_physical_sens(ctx, case, req, ans, entries, d)
+        if ans2 is not None:
+            sens_generation(ctx, case, sens, ans, ans2, req["dims"])
         # job number of the fit behind each entry (the s-th performed job has number arrivals[s])
         cmp("sens.order", [arrivals[int(rec["seq"])] for rec, _, _ in entries], ans["order"])
     # results.csv
@@ -1382,7 +1422,7 @@ def run(ctx):
     lap("sweep_steps")
     sweep_shape(ctx, cfg, 20000 if quick else 200000)
     lap("sweep_shape")
-    sweep_shape_any(ctx, cfg, 300 if quick else 1500, 200000 if quick else 3000000)
+    sweep_shape_any(ctx, cfg, 300 if quick else 800, 200000 if quick else 1000000)
     lap("sweep_shape_any")
     for _ in range(ctx.n(300, 3000)):
         run_builder(ctx, cfg, gen_builder_case(ctx.rng))
